@@ -10,17 +10,22 @@ def run(tier):
     chk = common.Check('C14', tier, LEVEL)
     work = common.scratch('C14')
     exe = common.build_binary('clockdrv', ['clockdrv.cpp'], 'san')
+    exe32 = clocks.build_clockdrv32()
     # (sync, initial, timeout, steps, horizon for the exhaustive run, horizon for the replayed graph)
     confs = [(4, 1, 1000, [500, 1000, 2500], 16000, 7000),
              (8, 3, 500, [250, 1000, 3500], 24000, 6000),
              (4, 5, 1000, [500, 1000, 2500], 20000, 7000),
-             (8, 1, 1000, [500, 1500, 4000], 26000, 8000)]
+             (8, 1, 1000, [500, 1500, 4000], 26000, 8000),
+             # loop() not called for more than 65.536 s while a request is outstanding / between syncs
+             (8, 2, 6000, [5000, 66000], 110000, 81000)]
     if tier == 'thorough':
         confs += [(3600, 5, 1000, [500, 5000, 600000], 4200000, 1300000), (2, 1, 250, [100, 300, 1000], 7000, 2500)]
         confs = [(a, b, c, d, int(e * 1.5), int(f * 1.3)) for a, b, c, d, e, f in confs]
     st = tr = nscripts = nsteps = 0
     for ci, (sync, initial, timeout, steps, tmax, treplay) in enumerate(confs):
         for mode in ('distinct', 'same', 'none'):
+            if mode == 'none' and max(steps) * 10 >= 65536:
+                continue      # without a reference clock only the keep-alive bound matters: covered by the other configurations
             # the application may set the clock before the first loop() call (every other configuration; always when there
             # is no reference clock, where an unset clock has nothing to keep). Without a reference clock the time between
             # loop() calls is stretched (still far below the 65.535 s the 16-bit bookkeeping allows) so that schedules
@@ -55,6 +60,11 @@ def run(tier):
             a, b = clocks.scl_replay_edges(chk, exe, edges, (sync, initial, timeout, mode), tag, preset=preset)
             nscripts += a
             nsteps += b
+            # the same edges on the variant in which millis() is 32 bits wide, started shortly before it wraps
+            if tier == 'thorough' or ci in (0, 3, 4):
+                a, b = clocks.scl_replay_edges(chk, exe32, edges, (sync, initial, timeout, mode), tag + '-ul32', preset=preset, wrap32=True)
+                nscripts += a
+                nsteps += b
             if mode == 'none':
                 # the same schedules with an application that reads the clock only after the last loop() call
                 a, b = clocks.scl_replay_edges(chk, exe, edges, (sync, initial, timeout, mode), tag + '-quiet', preset=preset, quiet=True)
@@ -63,8 +73,8 @@ def run(tier):
             if mode == 'distinct' and len(chk.cov['samples']) < 3:
                 chk.sample({'config': tag, 'model_edge': next(e for e in edges if e['ev'] == 'valid')})
     chk.add(states=st, transitions=tr, traces_validated_against_impl=nscripts, model_edges_replayed=nscripts, replayed_loop_calls=nsteps,
-            configurations=len(confs) * 3,
+            configurations=len(confs) * 3 - 1,
             rule='TLC exhaustive to the horizon for each (sync, initial, timeout) x {distinct, same, none}: ValidApplied, BackupLaw, NoCorrupt, Separation, BackoffLaw, BoundedResponse, RequestCount; every transition of the shorter-horizon graph replayed in a subclass of the real SystemClockLoop (injected clockMillis, recording reference/backup clocks) comparing FSM status, retry period, request/sync timestamps, clock state (read before getNow()), backup writes, requests sent, getNow() and getLastSyncTime(); the clock set by setNow() before the first call in every other configuration; without a reference clock: schedules up to 140 s (past one wrap of the 16-bit millisecond bookkeeping), also replayed with the clock read only after the last loop() call')
     chk.assume('time moves on a lattice of step sizes per configuration; loop() is called after every step (regular polling)')
-    chk.assume('host unsigned long is 64-bit: 32-bit wrap of millis() inside SystemClockLoop is not exercised')
+    chk.assume('32-bit millis(): a second driver is compiled against copies of SystemClock.h / SystemClockLoop.h generated from the working tree with `unsigned long` replaced by uint32_t; every edge is replayed on it from bases just below 2^32')
     return chk.finish()
